@@ -128,83 +128,166 @@ func compare(c *Case, exp string, got []obsLine) (diff string, imgDiff string) {
 
 // ---------------------------------------------------------------------------------------------
 
-func (c *Case) templateData() *document.TemplateData {
+// templateData builds the data through the documented setters. The order of the Set calls carries no meaning;
+// rev selects the second of two fixed orders (sorted / reverse sorted names), see run.
+func (c *Case) templateData(rev bool) *document.TemplateData {
 	d := document.NewTemplateData()
+	order := func(ks []string) []string {
+		sort.Strings(ks)
+		if rev {
+			for i, j := 0, len(ks)-1; i < j; i, j = i+1, j-1 {
+				ks[i], ks[j] = ks[j], ks[i]
+			}
+		}
+		return ks
+	}
 	names := make([]string, 0, len(c.Data.Vars))
 	for k := range c.Data.Vars {
 		names = append(names, k)
 	}
-	sort.Strings(names)
-	for _, k := range names {
+	for _, k := range order(names) {
 		d.SetVariable(k, c.Data.Vars[k].goValue())
 	}
-	for k, v := range c.Data.Conds {
-		d.SetCondition(k, v)
+	names = names[:0]
+	for k := range c.Data.Conds {
+		names = append(names, k)
 	}
-	for k, l := range c.Data.Lists {
-		d.SetList(k, goList(l))
+	for _, k := range order(names) {
+		d.SetCondition(k, c.Data.Conds[k])
 	}
-	for k, im := range c.Data.Images {
-		d.SetImageFromData(k, im.Bytes(), nil)
+	names = names[:0]
+	for k := range c.Data.Lists {
+		names = append(names, k)
+	}
+	for _, k := range order(names) {
+		d.SetList(k, goList(c.Data.Lists[k]))
+	}
+	names = names[:0]
+	for k := range c.Data.Images {
+		names = append(names, k)
+	}
+	for _, k := range order(names) {
+		d.SetImageFromData(k, c.Data.Images[k].Bytes(), nil)
 	}
 	return d
+}
+
+// renders: how often the case is rendered. The result of a render must not depend on anything but the template
+// and the data, so every render is judged; cases in which one value names another supplied name are rendered
+// several times, with the data set in two different orders, because a library that substitutes name by name
+// would treat them differently from one walk over its data to the next.
+func (c *Case) renders() int {
+	if c.varNamesSuppliedVar() {
+		return 6
+	}
+	if c.someDataStringHasOpenBraces() {
+		return 2
+	}
+	return 1
 }
 
 func run(c Case) *kit.Result {
 	res := &kit.Result{}
 	exp, ip := expected(&c)
 	srcs := c.sources()
+	describe(res, &c, ip, exp)
 
 	// T0: loading and rendering a well-formed template succeeds
 	res.Eval("C16.T0")
-	var doc *document.Document
+	var eng *document.TemplateEngine
 	var err error
 	where := ""
+	last := tplName(len(srcs) - 1)
 	p, st := kit.Try(func() {
-		eng := document.NewTemplateEngine()
+		eng = document.NewTemplateEngine()
+		// the history: loads whose outcome the final phase must make irrelevant (errors of these loads are allowed)
+		for i, ld := range c.Pre {
+			if src, ok := c.loadSource(ld, srcs); ok {
+				where = fmt.Sprintf("LoadTemplate %s (history load %d)", tplName(ld.T), i)
+				eng.LoadTemplate(tplName(ld.T), src)
+			}
+		}
+		// final phase: every template of the chain, base to child, with its final source
 		for i, s := range srcs {
 			if _, err = eng.LoadTemplate(tplName(i), s); err != nil {
 				where = "LoadTemplate " + tplName(i)
 				return
 			}
 		}
-		last := tplName(len(srcs) - 1)
-		if c.Entry == 1 {
-			where = "RenderTemplateToDocument"
-			doc, err = eng.RenderTemplateToDocument(last, c.templateData())
-		} else {
-			where = "RenderToDocument"
-			doc, err = eng.RenderToDocument(last, c.templateData())
-		}
+		where = ""
 	})
-	describe(res, &c, ip, exp)
 	if p != nil {
 		res.Fail("C16.T0", "panic in %s: %v [%s]\ntemplate: %q", where, p, st, srcs)
 		return res
 	}
-	if err != nil || doc == nil {
+	if err != nil {
 		res.Fail("C16.T0", "%s failed on a well-formed template: %v\ntemplate: %q", where, err, srcs)
 		return res
 	}
 
-	// T1: the paragraph texts are the reference text; T2: image lines are the pictures
-	got := observe(doc)
-	res.Eval("C16.T1")
 	hasImg := strings.Contains(exp, imgMark)
-	if hasImg {
-		res.Eval("C16.T2")
-	}
-	d, idiff := compare(&c, exp, got)
-	if d != "" {
-		var gs []string
-		for _, l := range got {
-			gs = append(gs, show(l))
+	for r, n := 0, c.renders(); r < n; r++ {
+		var doc *document.Document
+		p, st := kit.Try(func() {
+			data := c.templateData(r%2 == 1)
+			if c.Entry == 1 {
+				where = "RenderTemplateToDocument"
+				doc, err = eng.RenderTemplateToDocument(last, data)
+			} else {
+				where = "RenderToDocument"
+				doc, err = eng.RenderToDocument(last, data)
+			}
+		})
+		if p != nil {
+			res.Fail("C16.T0", "panic in %s: %v [%s]\ntemplate: %q", where, p, st, srcs)
+			return res
 		}
-		res.Fail("C16.T1", "%s\ntemplates: %q\ndata: %s\nexpected text: %q\ngot paragraphs: [%s]", d, srcs, dataBrief(&c), strings.ReplaceAll(exp, "\x00", "¤"), strings.Join(gs, ", "))
-	} else if idiff != "" {
-		res.Fail("C16.T2", "%s\ntemplates: %q", idiff, srcs)
+		if err != nil || doc == nil {
+			res.Fail("C16.T0", "%s failed on a well-formed template: %v\ntemplate: %q", where, err, srcs)
+			return res
+		}
+
+		// T1: the paragraph texts are the reference text; T2: image lines are the pictures
+		got := observe(doc)
+		res.Eval("C16.T1")
+		if hasImg {
+			res.Eval("C16.T2")
+		}
+		d, idiff := compare(&c, exp, got)
+		if d != "" {
+			var gs []string
+			for _, l := range got {
+				gs = append(gs, show(l))
+			}
+			res.Fail("C16.T1", "%s (render %d of %d)\ntemplates: %q%s\ndata: %s\nexpected text: %q\ngot paragraphs: [%s]", d, r+1, n, srcs, c.historyBrief(srcs), dataBrief(&c), strings.ReplaceAll(exp, "\x00", "¤"), strings.Join(gs, ", "))
+			return res
+		} else if idiff != "" {
+			res.Fail("C16.T2", "%s\ntemplates: %q", idiff, srcs)
+			return res
+		}
 	}
 	return res
+}
+
+// historyBrief shows the loads that preceded the final phase.
+func (c *Case) historyBrief(srcs []string) string {
+	if len(c.Pre) == 0 {
+		return ""
+	}
+	var sb strings.Builder
+	sb.WriteString("\nhistory before the chain was loaded base-to-child:")
+	for _, ld := range c.Pre {
+		src, ok := c.loadSource(ld, srcs)
+		if !ok {
+			continue
+		}
+		if ld.V == 0 {
+			sb.WriteString(fmt.Sprintf(" Load(%s, final);", tplName(ld.T)))
+		} else {
+			sb.WriteString(fmt.Sprintf(" Load(%s, earlier version %q);", tplName(ld.T), src))
+		}
+	}
+	return sb.String()
 }
 
 func dataBrief(c *Case) string {
@@ -432,6 +515,19 @@ func describe(res *kit.Result, c *Case, ip *interp, exp string) {
 	lab(ip.nestedAbsent, "nested:list-field-missing-no-lists")
 	lab(c.nestedUsesLoopContext(), "nested:uses-loop-context")
 	lab(c.someDataStringHasOpenBraces(), "data:has-{{")
+	rc := c.rescanClasses()
+	for k := range rc {
+		res.Label("class:" + k)
+	}
+	lab(len(rc) > 0, "data:rescan-class")
+	lab(len(rc) == 0 && c.someDataStringHasOpenBraces(), "data:has-{{-judged-exactly")
+	lab(len(rc) == 0 && c.someDataStringHasDirectiveToken(), "data:directive-token-judged-exactly")
+	lab(len(rc) == 0 && c.varNamesSuppliedVar(), "var:value-names-supplied-var")
+	sc := c.schedClasses()
+	for k := range sc {
+		res.Label("sched:" + k)
+	}
+	lab(len(c.Pre) == 0, "sched:none")
 	lab(bracey, "data:braces")
 	lab(multiline, "data:newline")
 	lab(braceLit, "lit:braces")
@@ -463,7 +559,12 @@ func describe(res *kit.Result, c *Case, ip *interp, exp string) {
 		}
 	}
 	res.Nontrivial = nk >= 2 && (ip.multiList || hasElse) && present && absent
-	res.Shape = sk.String() + "#" + strconv.Itoa(c.Entry) + "#" + strings.Join(ds, "")
+	var scs []string
+	for k := range sc {
+		scs = append(scs, k[:1])
+	}
+	sort.Strings(scs)
+	res.Shape = sk.String() + "#" + strconv.Itoa(c.Entry) + "#" + strings.Join(ds, "") + "#" + strings.Join(scs, "")
 }
 
 func fixedCases() []Case {
@@ -489,17 +590,21 @@ func TestC16(t *testing.T) {
 	openKF = kit.OpenFindings("C16")
 	kit.Main(t, kit.Spec[Case]{
 		ID: "C16", Level: "exploration",
-		Rule: "template chain (1-3 levels) drawn as an AST from the documented grammar (literals incl. newlines/braces, variables, if / if-else, each with fields/this/@index/@first/@last/inner if/nested each to depth 3, blocks + extends, image lines) with typed data (strings incl. brace-bearing and multi-line, int, int64, float64, bool, nil; conditions true/false/absent; lists of maps / scalars, empty, absent), serialised to text and rendered on a fresh engine; non-trivial = >=2 directive kinds among {var, if, each, block, image} and (a loop over >=2 items or a conditional with an else branch) and the data has both a present and an absent name used by the template; distinct = distinct (AST skeleton incl. list names and literal classes, entry point, per-name data type/presence/list-length vector)",
+		Rule: "template chain (1-3 levels) drawn as an AST from the documented grammar (literals incl. newlines/braces, variables, if / if-else, each with fields/this/@index/@first/@last/inner if/nested each to depth 3, blocks + extends, image lines) with typed data (strings incl. brace-bearing and multi-line, int, int64, float64, bool, nil; conditions true/false/absent; lists of maps / scalars, empty, absent), serialised to text, loaded on a fresh engine by a drawn load schedule (optional history: child before its base, an earlier version of a template later replaced, identical re-loads; then always the whole chain base-to-child with the final sources) and rendered (several times, data set in two orders, when a value names another supplied name); values with braces and whole directive tokens (placeholders naming other supplied variables, conditions, lists, fields, unknown names; {{/if}}, {{else}}, {{/each}}, ...) occur in every position and are judged exactly outside the (position, directive kind) classes of the open re-scan findings; non-trivial = >=2 directive kinds among {var, if, each, block, image} and (a loop over >=2 items or a conditional with an else branch) and the data has both a present and an absent name used by the template; distinct = distinct (AST skeleton incl. list names and literal classes, entry point, per-name data type/presence/list-length vector, set of schedule classes)",
 		Gen:  genCase, Run: run, Findings: findings, Fixed: fixedCases,
 		Assumptions: []string{
 			"names of variables, conditions, lists, item fields, blocks and images are pairwise distinct ASCII identifiers and none is this/else/index/first/last (the documents are silent on shadowing)",
 			"conditionals are not nested in conditionals; conditionals inside a loop test boolean fields of the current item only (string/number truthiness is not documented)",
 			"literal text never forms a directive: no literal token ends with '{' or starts with '}' except a lone brace placed directly around a directive; '{{ x }}' with inner blanks is literal text",
+			"values never complete a directive together with their surroundings: no value starts with '}' and every '}}' inside a value follows a character that cannot belong to a name; whole directive tokens inside a value are text",
+			"the engine history before the final base-to-child load of the chain carries no meaning (a load defines the named template anew); errors of history loads are ignored, the final loads must succeed",
 			"floats are drawn through decimal texts of 1-3 fractional digits (last digit non-zero), so the expected rendering is that text and no formatting convention is assumed; nil renders as nothing",
 			"a line consisting only of blanks/tabs is compared as empty and an all-blank output as no paragraphs",
 			"every image placeholder has image data; {{this}} is only used over lists of scalars",
 		},
 		MustSee: map[string]float64{"dir:var": 0.5, "dir:if": 0.3, "dir:if-else": 0.12, "dir:each": 0.4, "each:nested-ran": 0.04, "list:2+items": 0.3, "dir:block": 0.3, "chain:3": 0.08,
-			"dir:image": 0.05, "var:unknown": 0.2, "cond:absent": 0.08, "list:absent": 0.05, "data:float": 0.1, "lit:braces": 0.2, "data:braces": 0.05, "hazard:none": 0.7, "if:in-loop": 0.08},
+			"dir:image": 0.05, "var:unknown": 0.2, "cond:absent": 0.08, "list:absent": 0.05, "data:float": 0.1, "lit:braces": 0.2, "data:braces": 0.25, "hazard:none": 0.7, "if:in-loop": 0.08,
+			"data:has-{{-judged-exactly": 0.2, "data:directive-token-judged-exactly": 0.12, "var:value-names-supplied-var": 0.05,
+			"sched:child-first": 0.08, "sched:base-replaced": 0.08, "sched:reload-same": 0.12, "sched:replaced": 0.15, "sched:none": 0.25},
 	})
 }
